@@ -121,6 +121,20 @@ class _MA(Proxy):
         return m
 
 
+    def array(self, data, mask=None, **kw):
+        """numpy.ma.array(data, mask=m): the same masked array as masked_where(m, data) (a copy of the data)."""
+        if kw:
+            raise Unsupported("numpy.ma.array with %s" % sorted(kw))
+        if mask is None:
+            raise Unsupported("numpy.ma.array without a mask")
+        from .arr import as_array
+
+        _use("numpy.ma.array(data, mask=...)")
+        return self.masked_where(as_array(mask), as_array(data))
+
+    masked_array = array
+
+
 MA = _MA()
 
 
